@@ -38,45 +38,81 @@ def errno_values():
     return vals
 
 
-def find_restart(f, facts):
-    """returns (switch_bb, restart_edge (effective), other_edge) for the errno test"""
-    cands = life.restart_edges(f, facts)
+def errno_site(f):
+    """(location, dest local) of the raw_os_error() call that feeds the restart decision in the Done arm"""
     done = life.dispatch_edges(f, 'Done')
     out = []
-    for b, vals, otherwise in cands:
-        if done and not f.edge_dominates(done[0]['edge'], f.term_loc(b)):
-            continue
-        out.append((b, vals, otherwise))
+    for loc, t in f.calls():
+        if (t.get('callee') or '') == 'std::io::Error::raw_os_error' and not f.blocks[loc[0]]['cleanup'] and not t['dest']['p']:
+            if not done or f.edge_dominates(done[0]['edge'], loc) or loc[0] in f.reachable_blocks(done[0]['edge'][1]):
+                out.append((loc, t))
     return out
 
 
+def restart_reach(f, loc, t, errno, header=None):
+    """blocks reached behind the raw_os_error() call when it returned Some(errno) (None: when it returned None),
+    not following the loop back to the status dispatch"""
+    d = t['dest']['l']
+    env0 = {('D', d): 0} if errno is None else {('D', d): 1, ('P', d): (1, errno)}
+    if t['target'] is None:
+        return set()
+    return f.reach_blocks([Loc(t['target'], 0)], env0=env0, blockers=[header] if header else [])
+
+
 def r1_errno_set(r, facts):
+    """decided by value over the whole errno table: the restart (status = NotStarted) is reachable behind
+    raw_os_error() == Some(e) exactly for e in {EINTR, ECANCELED} — `matches!`, `==` chains, a helper function
+    or a lookup alike"""
     f = facts.fn(life.POLL_INNER)
-    cands = find_restart(f, facts)
-    if not r.require(len(cands) == 1, 'poll_inner/errno-switch', 'expected one errno switch in the Done arm of poll_inner, found %d' % len(cands), f.where()):
+    sites = errno_site(f)
+    if not r.require(len(sites) == 1, 'poll_inner/errno-switch', 'expected one raw_os_error() test in the Done arm of poll_inner, found %d' % len(sites), f.where()):
         return None
-    b, vals, otherwise = cands[0]
+    loc, t = sites[0]
     en = errno_values()
     want = {en['EINTR'], en['ECANCELED']}
-    r.inst('errno switch values %s' % sorted(vals), f.where(f.term_loc(b)))
-    r.require(set(vals.keys()) == want, 'poll_inner/errno-set', 'restart is selected by errno set %s, expected {EINTR=%d, ECANCELED=%d}' % (sorted(vals), en['EINTR'], en['ECANCELED']), f.where(f.term_loc(b)))
-    tg = set(vals.values())
-    r.require(len(tg) == 1 and otherwise not in tg, 'poll_inner/errno-arms', 'EINTR and ECANCELED do not select the same (restart) arm', f.where(f.term_loc(b)))
+    stores = {l[0] for l, v, e in life.status_stores(f, 'NotStarted')}
+    r.require(bool(stores), 'poll_inner/restart-store', 'status = NotStarted is never stored (no restart)', f.where())
+    disp = life.dispatch_edges(f, 'NotStarted')
+    header = f.term_loc(disp[0]['si']['bb']) if disp else None
+    got = set()
+    for name, v in sorted(en.items(), key=lambda kv: kv[1]):
+        if restart_reach(f, loc, t, v, header) & stores:
+            got.add(v)
+    none_restarts = bool(restart_reach(f, loc, t, None, header) & stores)
+    r.inst('errno values that lead to a restart: %s (of %d probed)' % (sorted(got), len(en)), f.where(loc))
+    r.require(got == want, 'poll_inner/errno-set', 'restart is selected by errno set %s, expected {EINTR=%d, ECANCELED=%d}' % (sorted(got), en['EINTR'], en['ECANCELED']), f.where(loc))
+    r.require(not none_restarts, 'poll_inner/errno-set', 'an error without an OS error number restarts the operation', f.where(loc))
     # on the Err edge of check_result
     eb = ExprBuilder(f)
-    e = eb.operand(f.term(b)['discr'])
+    e = eb.operand(t['args'][0])
     r.require(any(x[0] == 'call' and x[1] == 'io_uring::op::CompletionResult::check_result' for x in subexprs(e)),
-              'poll_inner/errno-source', 'the errno tested is not the error of this completion (check_result): %s' % (e,), f.where(f.term_loc(b)))
+              'poll_inner/errno-source', 'the errno tested is not the error of this completion (check_result): %s' % (e,), f.where(loc))
     r.floor(1)
 
 
 def restart_edge(f, facts):
-    cands = find_restart(f, facts)
-    if len(cands) != 1:
+    """an edge into the blocks only reached when the errno selects a restart (EINTR) and not otherwise (EPIPE)"""
+    sites = errno_site(f)
+    if len(sites) != 1:
         return None
-    b, vals, otherwise = cands[0]
-    tgt = list(set(vals.values()))[0]
-    return effective_edge(f, (b, tgt))
+    loc, t = sites[0]
+    en = errno_values()
+    disp = life.dispatch_edges(f, 'NotStarted')
+    header = f.term_loc(disp[0]['si']['bb']) if disp else None
+    stores = [l for l, v, e in life.status_stores(f, 'NotStarted')]
+    yes = restart_reach(f, loc, t, en['EINTR'], header) & restart_reach(f, loc, t, en['ECANCELED'], header)
+    no = restart_reach(f, loc, t, en['EPIPE'], header) | restart_reach(f, loc, t, None, header)
+    only = yes - no
+    # the entry edge whose target reaches the NotStarted store
+    cands = []
+    for b in sorted(only):
+        for p in f.pred[b]:
+            if p not in only and not f.blocks[p]['cleanup'] and p in yes:
+                cands.append((p, b))
+    for e in cands:
+        if any(f.forward_paths_hit([Loc(e[1], 0)], [s_]) is not None for s_ in stores) or not stores:
+            return e
+    return cands[0] if cands else None
 
 
 def r2_pure_restart(r, facts):
@@ -101,8 +137,10 @@ def r2_pure_restart(r, facts):
         hit = f.forward_paths_hit(start, [header], blockers=stores)
         r.require(hit is None and stores, 'poll_inner/restart-no-reset/%s' % tag, 'the restart arm reaches the loop header without storing Status::NotStarted (no resubmission / spins)', f.where())
         for s in stores:
-            r.require(f.edge_dominates(re_, s), 'poll_inner/notstarted-elsewhere', 'Status::NotStarted is stored outside the restart arm', f.where(s))
-        region = f.reachable_locs(start, blockers=[header])
+            r.require(f.edge_dominates(re_, s) or s[0] in f.reachable_blocks(re_[1]), 'poll_inner/notstarted-elsewhere', 'Status::NotStarted is stored outside the restart arm', f.where(s))
+        # path-sensitive: the arm may be entered through a flag (`matches!` / a helper's bool result)
+        rblocks = f.reach_blocks(start, blockers=[header])
+        region = {Loc(b, i) for b in rblocks for i in range(len(f.blocks[b]['stmts']) + 1)}
         if not ms:
             # single-shot: get_resources *moves* the resources out of the state (ptr::read); a path that has
             # read them out must hand them to map_ok/fallback and return, never go on to the restart
